@@ -148,6 +148,10 @@ def c08_script(rng, name, thorough):
     # genuine datagrams from the wrong party / truncated / with corrupted length fields
     for w in range(0, 8):
         for src in srcs:
+            # re-arm the receiver states first: an earlier (rightly) fatal datagram may have closed the pending attempts
+            ops += ["nconnect 1 p9", "ndrop 0", "nhk 3", "ndeliver 0", "ndrop 0"]
+            # verbatim, twice in a row: the first copy may consume one-shot state (the ephemeral key) without closing the attempt
+            ops.append("nreplay w%d 1 %s" % (w, src))
             ops.append("nreplay w%d 1 %s" % (w, src))
             for _ in range(6 if thorough else 2):
                 ops.append("nreplay w%d 1 %s %s" % (w, src, rng.choice(["trunc=%d" % rng.below(200), "set=%d:%d" % (rng.choice([10, 11, 13, 14, 34, 35, 36, 37, 70, 71]), rng.below(256)),
@@ -485,4 +489,69 @@ def keyholder_script(rng, name, final):
     ops += ["nseal 1 p9 00"]
     if final:
         ops += ["nseal 1 p2 -", "ndeliver 0"]
+    return Script(name, ops, {"suite": "node", "noshrink": True})
+
+
+def long_session_script(rng, name, seconds, drop_at=(), replay_age=(2, 3), expect_from=None):
+    """two nodes, one session over many rotation intervals (the rotation counter and the replay window are driven by housekeeping calls): every second a
+    payload datagram in each direction; each is replayed after the receiver has ticked `replay_age` times (C03: it must be dead by then); everything in
+    flight is dropped during the seconds in `drop_at` (a lost rotation message only postpones the key change, C07); at the end both sealing keys must have
+    been replaced since `expect_from`"""
+    ops = mesh(rng, 2) + ["npeer 1 p2"] + drain(6)
+    t = 0
+    marks = []          # (name, victim, emitted at second)
+    while t < seconds:
+        t += 1
+        ops.append("ntime %d" % t)
+        ops += ["nhk 1", "nhk 2"]
+        if t in drop_at:
+            ops += ["ndropfrom 1", "ndropfrom 2"]
+        else:
+            ops += drain(8)
+        # replays of payload datagrams whose receiver has ticked often enough since
+        keep = []
+        for (nm, victim, born) in marks:
+            if t - born in replay_age:
+                ops.append("nreplay m:%s %d orig" % (nm, victim))
+            if t - born < max(replay_age):
+                keep.append((nm, victim, born))
+        marks = keep
+        if t % 3 == 0 or t % 120 in (117, 118, 119, 0, 1, 2):
+            for a, b in ((1, 2), (2, 1)):
+                ops.append("nframe %d %s" % (a, hx(ipv4_packet(ip4(a), ip4(b), b"t%d" % t))))
+                nm = "f%d_%d" % (t, a)
+                ops += ["nmark " + nm, "ndeliver 0"]
+                marks.append((nm, b, t))
+    if expect_from is not None:
+        ops += ["nexpect keychange 1 2 %d" % expect_from, "nexpect keychange 2 1 %d" % expect_from]
+    ops.append("nexpect mesh 1 2")
+    return Script(name, ops, {"suite": "node", "noshrink": True})
+
+
+def stale_attempt_script(rng, name, which, at, mode="router", dev="tun"):
+    """one genuine handshake datagram (w0 = ping, w1 = pong, w2 = peng of the first handshake) is replayed verbatim from its original source at second
+    `at`, and nothing else: the attempt it may open lives until it is given up (120 retries) - the established connection, its routes and the payload in
+    both directions must not notice, neither while the attempt lives nor when it is given up"""
+    ports = [1, 2]
+    ops = mesh(rng, 2, mode=mode, dev=dev) + ["nconnect 1 p2"] + drain(6)
+    t = 0
+    def probes():
+        o = []
+        for x, y in ((1, 2), (2, 1)):
+            o.append("nframe %d %s" % (x, hx(ipv4_packet(ip4(x), ip4(y), rng.bytes(3)) if dev == "tun" else eth_frame("02000000000%d" % y, "02000000000%d" % x))))
+            o.append("ndeliver 0")
+        return o
+    while t < at:
+        t += 1
+        ops += second(ports, t)
+        if t % 10 == 0:
+            ops += probes()
+    ops.append("nreplay w%d %d orig" % (which, 2 if which in (0, 2) else 1))
+    ops += drain(4)
+    for _ in range(135):
+        t += 1
+        ops += second(ports, t)
+        if t % 4 == 0:
+            ops += probes()
+    ops.append("nexpect mesh 1 2")
     return Script(name, ops, {"suite": "node", "noshrink": True})
